@@ -292,7 +292,7 @@ def norm_raw(r, key=False):
     if isinstance(r, list):
         return [norm_raw(x) for x in r]
     if isinstance(r, abc.Mapping):
-        return (FD if key else dict)((norm_raw(k, True), norm_raw(v)) for k, v in r.items())
+        return (FD if key else dict)((norm_raw(k, True), norm_raw(v, key)) for k, v in r.items())    # (inside a key: hashable all the way down)
     if isinstance(r, abc.Set):
         return RawSet(norm_raw(x) for x in r)
     if isinstance(r, abc.Iterable):
@@ -491,7 +491,7 @@ def dec_model(j, strict=False, as_key=False):
     if k == 'se':
         return seqref.FSet(dec_model(t, strict) for t in x)
     if k == 'd':
-        return (FD if as_key else dict)((dec_model(a, strict, True), dec_model(b, strict)) for a, b in x)
+        return (FD if as_key else dict)((dec_model(a, strict, True), dec_model(b, strict, as_key)) for a, b in x)
     raise ValueError(j)
 
 
